@@ -9,7 +9,7 @@ from vlib.util import call, expect_eq
 from vlib.props.c01 import parents, ref_parent, versions
 
 PROPERTY_ID = "C02"
-OPTIMIZED = ['refusal']   # clauses run a second time under `python -O` (assert statements stripped)
+OPTIMIZED = ['refusal', 'path']   # clauses run a second time under `python -O` (assert statements stripped)
 RULE = ("parents as in C01; paths of 0..6 indexes in [0, 2^31); public parent obtained three ways (constructor "
         "from the reference point, parse of the reference xpub, parse of the implementation's own xpub); oracle = "
         "the implementation's private derivation with the private part dropped AND an independent CKDpub")
@@ -94,6 +94,22 @@ def check_path(case, ctx):
                 raise Violation("C02/path/raised", "%s parent: public ckd(%d) at level %d raised %r" % (form, i, lvl, cur))
             compare_pub("C02/path", "%s parent, path %s level %d" % (form, R.fmt_path(path, "M"), lvl + 1),
                         cur, refs[lvl], p["testnet"], prv_nodes[lvl])
+    if path:
+        # the first child built with the public constructor and `parent=` a node object that has derived nothing itself
+        Prv, Pub = _impl()
+        bare = pub_parents(p)[1][0][1]
+        st_, built = call(Pub, key=refs[0].sec(), chain_code=refs[0].c, index=path[0], depth=p["depth"] + 1,
+                          testnet=p["testnet"], parent=bare)
+        if st_ == "ok":
+            compare_pub("C02/constructed-with-parent", "node constructed with parent=<public node without recorded children>",
+                        built, refs[0], p["testnet"], prv_nodes[0])
+            cur = built
+            for lvl, i in enumerate(path[1:3], 1):
+                st_, cur = call(cur.ckd, i)
+                if st_ == "exc":
+                    raise Violation("C02/path/raised", "constructed node: public ckd(%d) raised %r" % (i, cur))
+                compare_pub("C02/constructed-with-parent", "below a node constructed with parent=<node>, level %d" % (lvl + 1),
+                            cur, refs[lvl], p["testnet"], prv_nodes[lvl])
     if path and not case.get("_sibling"):
         # the parent whose public key has the same x and the other parity (scalar n - k), in the same process
         check_path({"parent": dict(p, k=S.N - p["k"]), "path": path[:2], "_sibling": True}, ctx)
@@ -152,6 +168,47 @@ def check_refusal(case, ctx):
             if st_ == "ok" and any(getattr(n_, "index", 0) >= H for n_ in v):
                 raise Violation("C02/refusal/generate_children-returned", "generate_children(%r) on a public node returned "
                                 "%d nodes incl. hardened ones" % (iv, len(v)))
+    # public-only data held by the private node class (parse is shared by both classes; the wallet constructor and BIP85
+    # accept any node object): a hardened child must still never come out
+    Prv, Pub = _impl()
+    rp = ref_parent(p)
+    xpub = rp.xpub(versions(p["testnet"])[1])
+    kw = dict(chain_code=p["c"], index=p["index"], depth=p["depth"], testnet=p["testnet"], parent_fingerprint=p["pfp"])
+    loaders = [("PrvKeyNode.parse(xpub)", lambda: Prv.parse(xpub, p["testnet"])),
+               ("PrvKeyNode(key=<SEC public key>)", lambda: Prv(key=rp.sec(), **kw))]
+    for label, load in loaders:
+        st_, holder = call(load)
+        if st_ == "exc":
+            ctx.count("private-class-refuses-public-data")
+            continue
+        for how in ("ckd", "derive_path", "generate_children", "wallet.by_path", "bip85"):
+            st_, holder = call(load)
+            if st_ == "exc":
+                break
+            if how == "ckd":
+                st_, v = call(holder.ckd, case["hard"])
+            elif how == "derive_path":
+                st_, v = call(holder.derive_path, [case["hard"]] + list(case["suffix"])[:1])
+            elif how == "generate_children":
+                st_, v = call(holder.generate_children, (case["hard"], min(2 ** 32, case["hard"] + 2)))
+                if st_ == "ok" and not v:
+                    st_ = "exc"
+            elif how == "wallet.by_path":
+                from btc_hd_wallet.base_wallet import BaseWallet
+                st_, w = call(BaseWallet, master=holder, testnet=p["testnet"])
+                if st_ == "exc":
+                    continue
+                st_, v = call(w.by_path, "m/%d'" % (case["hard"] - H))
+            else:
+                from btc_hd_wallet.bip85 import BIP85DeterministicEntropy
+                st_, b = call(BIP85DeterministicEntropy, master_node=holder)
+                if st_ == "exc":
+                    continue
+                st_, v = call(b.entropy, "m/83696968'/%d'" % (case["hard"] - H))
+            if st_ == "ok" and v is not None:
+                raise Violation("C02/refusal/public-data-in-private-class[%s]" % how, "%s then %s with hardened index %d "
+                                "returned %r instead of refusing" % (label, how, case["hard"], v))
+            ctx.count("public-data-in-private-class refused")
 
 
 # ---------------------------------------------------------------------------- leading-zero children
